@@ -58,6 +58,10 @@ CHECKS.update({
  "C15": ("Coq: on the expressions REGENERATED from equivalent_single_u_tube — fluid and pipe-wall volumes preserved, pipe resistance reproduced (sqrt only through (sqrt y)^2 = y, ln abstract), and the exact conditions under which each conductivity root solve matches or clamps; real to_single() sweeps",
          "the 0.1 % borehole-resistance clause is decided by computation; it FAILS on the unchanged tree for every multi-pipe geometry (listed known finding, keyed by call site)", "6 C15"),
 })
+CHECKS.update({
+ "C14": ("Coq (partial): the exact-arithmetic core of RowWise — row spacing >= target, thin lots have zero rows (the divisor the code then divides by), distribute's count/ends/spacing, the (floor(W/s)+1)x(floor(H/s)+1) rectangle lattice, the sweep returns the FIRST maximum, convex combinations of inside points are inside; correspondence of the rectangle lattice and the sweep argmax against the real generator",
+         "partial: termination, trigonometry, duplicate removal, no-go and perimeter handling are float/heuristic code that the model does not carry; they are observed on the real generator under a time limit on random convex lots (axes-touching, [-90,90] windows, no-go zones, perimeter ratios)", "6 C14"),
+})
 NA = {}
 def main():
     checks = []
